@@ -14,6 +14,8 @@ import Verif.Lemmas.MptStoreEvents
 import Verif.Props.C04
 import Verif.Lemmas.MptChain
 import Verif.Lemmas.TrieRun
+import Verif.Lemmas.Interp
+import Verif.Lemmas.RunChain
 namespace Verif.Props.C05
 open Verif.Mpt Verif.MptStore Verif.MptStore.Collector Verif.Props.C04
 
@@ -64,14 +66,45 @@ theorem dead_not_live (H : Bytes → Bytes) (t0 t : Node) (b0 : Trie) (v : Nat) 
 
 /-- **Dead set ∩ live set = ∅ — any round of a block trie** (own operations and merged, possibly nested, transactions:
     `TrieRun`); discipline proved, key injectivity on the run's references assumed. -/
-theorem dead_not_live_run (H : Bytes → Bytes) (U : Ref → Prop) (t0 t : Node) (b0 : Trie) (v : Nat) (es : List Event)
+theorem dead_not_live_run (H : Bytes → Bytes) (U : Ref → Prop) (Vok : Nat → Prop) (t0 t : Node) (b0 : Trie) (es : List Event)
     (hfresh : b0.cc.changes = [] ∧ b0.cc.deletes = []) (hw : WF t0) (hUt : ∀ r ∈ refs t0 [], U r)
-    (hrun : TrieRun H U v t0 es t) (hU : KeyInjOn H U) :
+    (hrun : TrieRun H U Vok t0 es t) (hU : KeyInjOn H U) :
     ∀ x ∈ deadKeys H (b0.applyEvents H es), x ∉ nodeKeys H t := by
   obtain ⟨hd, hc, _, _, _⟩ := trieRun_discipline H U hU hrun hw hUt (fun x => x ∈ (refs t0 []).map (Ref.key H))
     (fun r hr => List.mem_map.mpr ⟨r, hr, rfl⟩)
     (by intro x hx; obtain ⟨r, hr, hk⟩ := List.mem_map.mp hx; exact ⟨r, hUt r hr, hk⟩)
   exact dead_not_live_partial H t0 t b0 es hfresh hd hc
+
+/-- **Dead set ∩ live set = ∅ — every history of the interpreter** (`Forest.step`, the trie-building ops the model
+    driver replays next to the Go code): after ANY op list from a freshly opened block trie, no key the block trie would
+    record as dead is the key of a node of its tree.  Side conditions as in `C04_complete_interp`. -/
+theorem dead_not_live_interp (H : Bytes → Bytes) (ord : List (Change Ref) → List (Change Ref)) (hord : ∀ l, (ord l).Perm l)
+    (U : Ref → Prop) (Vok : Nat → Prop) (hU : KeyInjOn H U) (hne : ∀ x, H x ≠ []) (t0 : Node) (v : Nat)
+    (hw : WF t0) (hu : ∀ r ∈ refs t0 [], U r) (ops : List TOp)
+    (hin : RunIn H ord U Vok { tries := [(0, 0, Trie.open (root H t0) t0 v)] } ops) (pid : Nat) (b : Trie)
+    (hb : (Forest.run H ord { tries := [(0, 0, Trie.open (root H t0) t0 v)] } ops).find 0 = some (pid, b)) :
+    ∀ x ∈ deadKeys H b, x ∉ nodeKeys H b.tree := by
+  obtain ⟨es, v0, h1, _, hrun, _⟩ := block_is_trieRun H ord hord U Vok hU hne t0 v hw hu ops hin pid b hb
+  have := dead_not_live_run H U Vok t0 b.tree (Trie.open (root H t0) t0 v0) es ⟨rfl, rfl⟩ hw hu hrun hU
+  simp only [deadKeys] at this ⊢
+  rw [h1]; exact this
+
+/-- non-vacuity of `dead_not_live_run`: the block trie merges one transaction that inserted a key -/
+example : ∃ es, TrieRun id (fun r => r = ⟨[], .leaf 1 [3] [65]⟩) (fun v => v = 1) .empty es (.leaf 1 [3] [65]) ∧
+    ∀ x ∈ deadKeys id ((Trie.open [] .empty 1).applyEvents id es), x ∉ nodeKeys id (.leaf 1 [3] [65]) := by
+  have hC : RoundEvents 1 .empty ((insertE 1 [65] .empty [] [3]).2 ++ []) (.leaf 1 [3] [65]) := by
+    apply RoundEvents.ins _ _ _ _ _ (by simp)
+    have h1 : (insertE 1 [65] .empty [] [3]).1 = .leaf 1 [3] [65] := by simp [insertE]
+    rw [h1]; exact RoundEvents.nil _
+  have hchild : TrieRun id (fun r => r = ⟨[], .leaf 1 [3] [65]⟩) (fun v => v = 1) .empty
+      (((insertE 1 [65] .empty [] [3]).2 ++ []) ++ []) (.leaf 1 [3] [65]) :=
+    TrieRun.own 1 _ _ _ _ _ rfl hC (by intro r hr; simpa [insertE, eventRefs] using hr) (TrieRun.nil _)
+  have hrun := TrieRun.merge (H := id) (U := fun r => r = ⟨[], .leaf 1 [3] [65]⟩) (Vok := fun v => v = 1) .empty (.leaf 1 [3] [65])
+    (.leaf 1 [3] [65]) (Trie.open [] .empty 1) _ [] _ ⟨rfl, rfl⟩ hchild (List.Perm.refl _) (by decide) (TrieRun.nil _)
+  refine ⟨_, hrun, ?_⟩
+  apply dead_not_live_run id _ _ .empty _ (Trie.open [] .empty 1) _ ⟨rfl, rfl⟩ (Or.inl rfl) (by intro r h; simp [refs] at h) hrun
+  intro a b ha hb _
+  rw [ha, hb]
 
 /-- non-vacuity of `dead_not_live`: the round `ins [3] := 66` on the one-leaf tree of version 1, at version 2 -/
 example : ∀ x ∈ deadKeys id ((Trie.open [] (.leaf 1 [3] [65]) 2).applyEvents id ((insertE 2 [66] (.leaf 1 [3] [65]) [] [3]).2 ++ [])),
@@ -260,6 +293,104 @@ example : ∀ r j x,
       · by_cases h0 : k = 0 <;> simp [h0, refs] at hc <;> simp [hc]
       · by_cases h0 : k = 0 <;> simp [h0, insertE, splitCommon, eventRefs] at hc
         rcases hc with hc | hc <;> simp [hc]
+    rcases hA with hA | hA <;> rcases hC with hC | hC <;> subst hA <;> subst hC <;>
+      first | rfl | exact absurd hk hne | exact absurd hk.symm hne
+
+/-- **A node recorded dead stays dead — chains of block runs with merged transactions at their own versions.**
+    `T i` is the tree after block `i`; block `i+1` is a `TrieRun` from `T i` to `T (i+1)` (own rounds and merged, possibly
+    nested, child tries) whose rounds run at versions of the set `S (i+1)` — a child may run at a version different from
+    its parent's, `mergeChanges` keeps the child's origins (fix 280766e).  The version sets of different blocks are
+    disjoint (the generator's constraint: a trie never runs at a version an earlier block of the store executed), the
+    origins of the start tree lie in `S 0`, the key is injective on `U`.  Then a key recorded dead by block `r+1` is the
+    key of no node of any later tree. -/
+theorem C05_dead_forever_runs (H : Bytes → Bytes) (U : Ref → Prop) (hU : KeyInjOn H U) (T : Nat → Node)
+    (E : Nat → List Event) (S : Nat → Nat → Prop) (b : Nat → Trie)
+    (hfresh : ∀ i, (b i).cc.changes = [] ∧ (b i).cc.deletes = [])
+    (hrun : ∀ i, TrieRun H U (S (i + 1)) (T i) (E (i + 1)) (T (i + 1)))
+    (hw0 : WF (T 0)) (hU0 : ∀ r ∈ refs (T 0) [], U r)
+    (horg0 : ∀ r ∈ refs (T 0) [], S 0 (origin r.t))
+    (hdisj : ∀ i j, i < j → ∀ v, S i v → ¬ S j v) :
+    ∀ r j x, x ∈ deadKeys H ((b r).applyEvents H (E (r + 1))) → x ∉ nodeKeys H (T (r + 1 + j)) := by
+  have hinv : ∀ i, WF (T i) ∧ ∀ r ∈ refs (T i) [], U r := by
+    intro i
+    induction i with
+    | zero => exact ⟨hw0, hU0⟩
+    | succ i ih =>
+      obtain ⟨_, _, hw, _, hu⟩ := trieRun_discipline H U hU (hrun i) ih.1 ih.2 (fun x => x ∈ (refs (T i) []).map (Ref.key H))
+        (fun r hr => List.mem_map.mpr ⟨r, hr, rfl⟩)
+        (by intro x hx; obtain ⟨r, hr, hk⟩ := List.mem_map.mp hx; exact ⟨r, ih.2 r hr, hk⟩)
+      exact ⟨hw, hu⟩
+  have hEU : ∀ i, ∀ r ∈ eventRefs (E (i + 1)), U r := by
+    intro i
+    exact (trieRun_discipline H U hU (hrun i) (hinv i).1 (hinv i).2 (fun x => x ∈ (refs (T i) []).map (Ref.key H))
+        (fun r hr => List.mem_map.mpr ⟨r, hr, rfl⟩)
+        (by intro x hx; obtain ⟨r, hr, hk⟩ := List.mem_map.mp hx; exact ⟨r, (hinv i).2 r hr, hk⟩)).2.2.2.1
+  have horig := fun i => trieRun_origins H U hU (hrun i) (hinv i).1 (hinv i).2
+  have horg : ∀ i, ∀ r ∈ refs (T i) [], ∃ k, k ≤ i ∧ S k (origin r.t) := by
+    intro i
+    induction i with
+    | zero => intro r hr; exact ⟨0, Nat.le_refl _, horg0 r hr⟩
+    | succ i ih =>
+      intro r hr
+      rcases (horig i).1 r hr with h | h
+      · obtain ⟨k, hk, hs⟩ := ih r h
+        exact ⟨k, Nat.le_succ_of_le hk, hs⟩
+      · exact ⟨i + 1, Nat.le_refl _, (horig i).2.1 r h⟩
+  intro r j x hx
+  obtain ⟨d, hd, hdk⟩ := deadKeys_sub_eventRefs H (b r) (E (r + 1)) (hfresh r) x hx
+  have hdorg : ∃ k, k ≤ r + 1 ∧ S k (origin d.t) := by
+    rcases (horig r).2.2 d hd with h | h
+    · obtain ⟨k, hk, hs⟩ := horg r d h
+      exact ⟨k, Nat.le_succ_of_le hk, hs⟩
+    · exact ⟨r + 1, Nat.le_refl _, h⟩
+  induction j with
+  | zero =>
+    exact dead_not_live_run H U (S (r + 1)) (T r) (T (r + 1)) (b r) (E (r + 1)) (hfresh r) (hinv r).1 (hinv r).2 (hrun r) hU x hx
+  | succ j ih =>
+    intro hlive
+    obtain ⟨ρ, hρ, hρk⟩ := List.mem_map.mp hlive
+    have hρd : ρ = d := hU ρ d ((hinv (r + 1 + j + 1)).2 ρ hρ) (hEU r d hd) (hρk.trans hdk.symm)
+    rcases (horig (r + 1 + j)).1 ρ hρ with h | h
+    · exact ih (List.mem_map.mpr ⟨ρ, h, hρk⟩)
+    · have h1 := (horig (r + 1 + j)).2.1 ρ h
+      rw [hρd] at h1
+      obtain ⟨k, hk, hs⟩ := hdorg
+      exact hdisj k (r + 1 + j + 1) (by omega) _ hs h1
+
+/-- non-vacuity of `C05_dead_forever_runs`: block 1 overwrites the only leaf at version 2, all later blocks are empty -/
+example : ∀ r j x,
+    x ∈ deadKeys id ((Trie.open [] .empty 0).applyEvents id
+          ((fun i => if i = 1 then (insertE 2 [66] (.leaf 1 [3] [65]) [] [3]).2 ++ [] else ([] : List Event)) (r + 1))) →
+    x ∉ nodeKeys id ((fun i => if i = 0 then Node.leaf 1 [3] [65] else .leaf 2 [3] [66]) (r + 1 + j)) := by
+  have hne : Ref.key id ⟨[], .leaf 1 [3] [65]⟩ ≠ Ref.key id ⟨[], .leaf 2 [3] [66]⟩ := by
+    intro hk
+    simp [Ref.key, key, le64] at hk
+    exact absurd (congrArg List.getLast? hk) (by simp)
+  apply C05_dead_forever_runs id (fun a => a = ⟨[], .leaf 1 [3] [65]⟩ ∨ a = ⟨[], .leaf 2 [3] [66]⟩) _
+    (fun i => if i = 0 then Node.leaf 1 [3] [65] else .leaf 2 [3] [66])
+    (fun i => if i = 1 then (insertE 2 [66] (.leaf 1 [3] [65]) [] [3]).2 ++ [] else []) (fun i v => v = i + 1)
+    (fun _ => Trie.open [] .empty 0) (fun _ => ⟨rfl, rfl⟩)
+  · intro i
+    cases i with
+    | zero =>
+      simp only [Nat.zero_add, if_true, Nat.reduceAdd]
+      have hround : RoundEvents 2 (.leaf 1 [3] [65]) ((insertE 2 [66] (.leaf 1 [3] [65]) [] [3]).2 ++ []) (.leaf 2 [3] [66]) := by
+        apply RoundEvents.ins _ _ _ _ _ (by simp)
+        have h2 : (insertE 2 [66] (.leaf 1 [3] [65]) [] [3]).1 = .leaf 2 [3] [66] := by simp [insertE, splitCommon]
+        rw [h2]
+        exact RoundEvents.nil _
+      have := TrieRun.own (H := id) (U := fun a => a = ⟨[], .leaf 1 [3] [65]⟩ ∨ a = ⟨[], .leaf 2 [3] [66]⟩)
+        (Vok := fun v => v = 2) 2 _ _ _ _ [] rfl hround
+        (by intro a ha; simp [insertE, splitCommon, eventRefs] at ha; rcases ha with ha | ha <;> simp [ha])
+        (TrieRun.nil _)
+      simpa using this
+    | succ i => simp only [Nat.add_eq_zero_iff, Nat.succ_ne_zero, and_false, if_false, Nat.add_right_cancel_iff, false_and]
+                exact TrieRun.nil _
+  · exact Or.inr (by simp [WFn])
+  · intro r hr; simp [refs] at hr; subst hr; exact Or.inl rfl
+  · intro r hr; simp [refs] at hr; subst hr; simp [origin]
+  · intro i j h v h1 h2; omega
+  · intro a c hA hC hk
     rcases hA with hA | hA <;> rcases hC with hC | hC <;> subst hA <;> subst hC <;>
       first | rfl | exact absurd hk hne | exact absurd hk.symm hne
 
